@@ -159,17 +159,36 @@ def _strip_impl(it, s, chars, left, right, n):
             return VStr(r, "bytes")
         r = cs.strip(pychars) if left and right else cs.lstrip(pychars) if left else cs.rstrip(pychars)
         return VStr(r, "str")
-    r = z3.String(it.ctx.fresh_name("strip"))
-    pre = z3.String(it.ctx.fresh_name("strip_l")) if left else z3.StringVal("")
-    post = z3.String(it.ctx.fresh_name("strip_r")) if right else z3.StringVal("")
-    it.ctx.assume(s.z == z3.Concat(pre, r, post), "str.strip:decomposition")
-    if left:
-        it.ctx.assume(z3.InRe(pre, z3.Star(ws)), "str.strip:left-ws")
-        it.ctx.assume(z3.Not(z3.InRe(r, z3.Concat(ws, ANY))), "str.strip:left-maximal")
-    if right:
-        it.ctx.assume(z3.InRe(post, z3.Star(ws)), "str.strip:right-ws")
-        it.ctx.assume(z3.Not(z3.InRe(r, z3.Concat(ANY, ws))), "str.strip:right-maximal")
+    # strip is a function of its input: one uninterpreted function per (kind, chars, side), its
+    # defining facts (unique decomposition) instantiated once per argument term and path
+    tag = f"{s.kind}_{'L' if left else ''}{'R' if right else ''}_{'ws' if pychars is None else pychars.encode('unicode_escape').decode()}"
+    fn = _strip_fn("py_strip_" + tag)
+    fpre = _strip_fn("py_strip_pre_" + tag)
+    fpost = _strip_fn("py_strip_post_" + tag)
+    r = fn(s.z)
+    pre = fpre(s.z) if left else z3.StringVal("")
+    post = fpost(s.z) if right else z3.StringVal("")
+    seen = it.ctx.__dict__.setdefault("_strip_seen", set())
+    key = (tag, s.z.get_id())
+    if key not in seen:
+        seen.add(key)
+        it.ctx.assume(s.z == z3.Concat(pre, r, post), "str.strip:decomposition")
+        if left:
+            it.ctx.assume(z3.InRe(pre, z3.Star(ws)), "str.strip:left-ws")
+            it.ctx.assume(z3.Not(z3.InRe(r, z3.Concat(ws, ANY))), "str.strip:left-maximal")
+        if right:
+            it.ctx.assume(z3.InRe(post, z3.Star(ws)), "str.strip:right-ws")
+            it.ctx.assume(z3.Not(z3.InRe(r, z3.Concat(ANY, ws))), "str.strip:right-maximal")
     return VStr(r, s.kind)
+
+
+_strip_fns = {}
+
+
+def _strip_fn(name):
+    if name not in _strip_fns:
+        _strip_fns[name] = z3.Function(name, StrS, StrS)
+    return _strip_fns[name]
 
 
 def _strip(left, right):
@@ -403,6 +422,7 @@ _METHODS = {
 # --------------------------------------------------------------------------
 # int(s) / float(s)
 
+MAX_DIGITS = z3.Int("py_int_max_str_digits")
 PLAIN_INT = z3.Concat(z3.Option(z3.Re(z3.StringVal("-"))), z3.Plus(DIGIT))
 HEXDIGIT = z3.Union(DIGIT, _range("a", "f"), _range("A", "F"))
 
@@ -421,11 +441,15 @@ def parse_int(it, s, base, n):
             it.raise_("ValueError", node=n)
     bz = z3.IntVal(base)
     if base == 10:
-        plain = z3.And(z3.InRe(s.z, PLAIN_INT), z3.Length(s.z) <= 4300)
+        # CPython limits int() to sys.get_int_max_str_digits() digits (4300 by default).  The
+        # limit is kept symbolic (>= 1): obligations hold for every limit (sound generalisation;
+        # a literal 4300 would force 4301-character models, which z3 cannot build in time)
+        it.ctx.assume(MAX_DIGITS >= 1, "int():max-str-digits>=1")
+        plain = z3.And(z3.InRe(s.z, PLAIN_INT), z3.Length(s.z) <= MAX_DIGITS)
         neg = z3.PrefixOf(z3.StringVal("-"), s.z)
-        digits = z3.If(neg, z3.SubString(s.z, 1, z3.Length(s.z)), s.z)
-        val = z3.If(neg, -z3.StrToInt(digits), z3.StrToInt(digits))
-        it.ctx.assume(z3.Implies(plain, z3.And(INT_OK(s.z, bz), INT_VAL(s.z, bz) == val)), "int():plain-decimal")
+        it.ctx.assume(z3.Implies(plain, INT_OK(s.z, bz)), "int():plain-decimal-accepted")
+        it.ctx.assume(z3.Implies(z3.And(plain, z3.Not(neg)), INT_VAL(s.z, bz) >= 0), "int():unsigned>=0")
+        it.ctx.assume(z3.Implies(z3.And(plain, neg), INT_VAL(s.z, bz) <= 0), "int():negative<=0")
         # strings without any digit are never accepted
         it.ctx.assume(z3.Implies(z3.Not(z3.InRe(s.z, z3.Concat(ANY, _nonascii_or_digit(), ANY))), z3.Not(INT_OK(s.z, bz))),
                       "int():needs-a-digit")
